@@ -36,6 +36,8 @@ EXTRA = {
     r'CentroidOperation::<\w+>::add_weighted_centroid': ('geo', r'centroid::<impl at [^>]*>::add_weighted_centroid'),
     r'geo_types::Coord::<\w+>::x_y': ('geo_types', r'geometry::coord::<impl at [^>]*>::x_y'),
     r'geo_types::Line::<\w+>::determinant': ('geo_types', r'line::<impl at [^>]*>::determinant'),
+    r'GeometryGraph::<.*>::determine_boundary': ('geo', r'geometry_graph::<impl at [^>]*>::determine_boundary'),
+    r'swap_with_first_and_remove::<.*>': ('geo', r'swap_with_first_and_remove'),
     r'geo_types::Line::<\w+>::dx': ('geo_types', r'line::<impl at [^>]*>::dx'),
     r'geo_types::Line::<\w+>::dy': ('geo_types', r'line::<impl at [^>]*>::dy'),
     r'geo_types::Line::<\w+>::new::<.*>': ('geo_types', r'line::<impl at [^>]*>::new'),
@@ -57,7 +59,7 @@ def dump_mir():
                                  cwd=root, stdout=f, stderr=e, env=env)
         if rc != 0 or os.path.getsize(out) < 1000:
             raise RuntimeError('MIR dump of %s failed (rc=%s): %s' % (crate, rc, open(os.path.join(MIRDIR, crate + '.err')).read()[-800:]))
-    return Mir({'geo': os.path.join(MIRDIR, 'geo.mir'), 'geo_types': os.path.join(MIRDIR, 'geo_types.mir')}), time.time() - t0
+    return Mir({'geo': os.path.join(MIRDIR, 'geo.mir'), 'geo_types': os.path.join(MIRDIR, 'geo_types.mir')}, repo=REPO), time.time() - t0
 
 
 # ------------------------------------------------------------------------------- solving
@@ -923,6 +925,252 @@ def o_poly_assembly(mir, tier, seed):
     return dict(theory='Real; rings opaque, add_ring modelled by its contract (adds an arbitrary two-dimensional weighted centroid per ring); add_line_string / add_weighted_centroid recorded', functions=['CentroidOperation::add_polygon', 'WeightedCentroid::sub_assign'], paths=npaths, status=st, info=info, model=None, replay=('centroid_contributions', ''))
 
 
+# ---- C07: which rings a polygon-polygon distance is taken between, and over which vertices
+
+def zmin(xs):
+    m = xs[0]
+    for x in xs[1:]:
+        m = z3.If(x <= m, x, m)
+    return m
+
+
+@obligation('C07', 'polygon_polygon_distance_dispatch', 'Euclidean distance of two polygons with 0-2 holes each, rings opaque: 0 when they intersect; when A has holes and A\'s shell contains B\'s first shell vertex, the minimum over A\'s holes of the ring distance to B\'s shell; symmetrically for B; otherwise the ring distance between the two shells (intersects, ring_contains_coord and nearest_neighbour_distance uninterpreted; F::max_value() dominates every distance)')
+def o_pp_dispatch(mir, tier, seed):
+    fn = mir.find('geo', r'euclidean::distance::<impl at [^>]*>::distance', sig=r'_2: &geo_types::Polygon<F>, _3: &geo_types::Polygon<F>')
+    T = RealTheory()
+    bad, assume, npaths = [], [], 0
+    for na in (0, 1, 2):
+        for nb in (0, 1, 2):
+            ring = lambda name: [[('coord', name, 0), ('coord', name, 1)]]
+            polys = {'A': (ring('A'), [ring('Ah%d' % i) for i in range(na)]), 'B': (ring('B'), [ring('Bh%d' % i) for i in range(nb)])}
+            rid = lambda r: deref(deref(r)[0])[0][1]
+            I = z3.Bool('intersects_%d%d' % (na, nb))
+            contains, nn = {}, {}
+
+            def rcc(ip, d, contains=contains, rid=rid, na=na, nb=nb):
+                key = (rid(d[0]), d[1][1], d[1][2])
+                return contains.setdefault(key, z3.Bool('contains_%s_%s%d_%d%d' % (key + (na, nb))))
+
+            def nnd(ip, d, nn=nn, rid=rid, na=na, nb=nb):
+                key = tuple(sorted((rid(d[0]), rid(d[1]))))
+                return nn.setdefault(key, T.var('nn_%s_%s_%d%d' % (key + (na, nb))))
+            uf = {'re:<geo_types::Polygon<F> as (algorithm::)?intersects::Intersects>::intersects': lambda ip, d, I=I: I,
+                  're:geo_types::Polygon::<\\w+>::exterior': lambda ip, d: d[0][0],
+                  're:geo_types::Polygon::<\\w+>::interiors': lambda ip, d: d[0][1],
+                  're:(euclidean::distance::)?ring_contains_coord::<\\w+>': rcc,
+                  're:(euclidean::distance::)?nearest_neighbour_distance::<\\w+>': nnd}
+            ip = Interp(mir, T, EXTRA, uf)
+            A, B = list(polys['A']), list(polys['B'])
+            outs = ip.call_fn(fn, [('euclidean',), Ref(lambda A=A: A), Ref(lambda B=B: B)], z3.BoolVal(True))
+            npaths += len(outs)
+            N = lambda a, b: nnd(None, [[[('coord', a, 0)]], [[('coord', b, 0)]]])
+            cA = rcc(None, [ring('A'), ('coord', 'B', 0)])
+            cB = rcc(None, [ring('B'), ('coord', 'A', 0)])
+            want = N('A', 'B')
+            if nb > 0:
+                want = z3.If(cB, zmin([N('A', 'Bh%d' % i) for i in range(nb)]), want)
+            if na > 0:
+                want = z3.If(cA, zmin([N('B', 'Ah%d' % i) for i in range(na)]), want)
+            want = z3.If(I, T.const(0), want)
+            mx = getattr(ip, 'max_value', None)
+            for v in nn.values():
+                assume.append(v >= 0)
+                if mx is not None:
+                    assume.append(mx >= v)
+            bad.append(z3.Not(z3.Or([pc for pc, _ in outs])))
+            for pc, r in outs:
+                bad.append(z3.And(pc, deref(r) != want))
+    st, info, model = check_unsat('polygon_polygon_distance_dispatch', assume + [z3.Or(bad)])
+    return dict(theory='Real + Bool; rings opaque; intersects / ring_contains_coord / nearest_neighbour_distance uninterpreted', functions=['Distance<F, &Polygon, &Polygon> for Euclidean'], paths=npaths, status=st, info=info, model=None, replay=('polygon_distance', ''))
+
+
+@obligation('C07', 'ring_distance_covers_every_vertex', 'nearest_neighbour_distance(g1, g2) for line strings of 2-4 coordinates each: the minimum, over EVERY coordinate of g2, of its distance to the nearest segment of g1 (R-tree nearest-neighbour lookup and the point-segment distance uninterpreted), and over EVERY coordinate of g1 to the nearest segment of g2; each tree is built from all segments of its line string')
+def o_nn_structure(mir, tier, seed):
+    from mir2smt import SliceIter
+    fn = mir.find('geo', r'euclidean::distance::nearest_neighbour_distance')
+    T = RealTheory()
+    bad, assume, npaths = [], [], 0
+    for n1 in (2, 3, 4):
+        for n2 in (2, 3, 4):
+            size = {'g1': n1, 'g2': n2}
+            D = {}
+
+            def lines(ip, d):
+                g = d[0][0]
+                return SliceIter([('line', g, i) for i in range(size[g] - 1)])
+
+            def points(ip, d):
+                g = d[0][0]
+                return SliceIter([('point', g, i) for i in range(size[g])])
+
+            def bulk(ip, d):
+                return ('tree', tuple(deref(x) for x in d[0]))
+
+            def nearest(ip, d):
+                return Enum('Some', [('nearest-in', d[0], deref(d[1]))])
+
+            def dist(ip, d, D=D, n1=n1, n2=n2):
+                ne, pt = deref(d[1]), deref(d[2])
+                if not (isinstance(ne, tuple) and ne[0] == 'nearest-in' and ne[2] == pt):
+                    raise Untranslatable('distance between a point and something that is not its nearest segment')
+                key = (ne[1], pt)
+                return D.setdefault(key, T.var('d_%d%d_%d' % (n1, n2, len(D))))
+            uf = {'re:geo_types::LineString::<\\w+>::lines': lines, 're:geo_types::LineString::<\\w+>::points': points,
+                  're:RTree::<.*>::bulk_load': bulk, 're:RTree::<.*>::nearest_neighbor': nearest,
+                  're:CachedEnvelope::<.*>::new': lambda ip, d: d[0], 're:<CachedEnvelope<.*> as Deref>::deref': lambda ip, d: d[0],
+                  're:<euclidean::Euclidean as (algorithm::)?line_measures::distance::Distance<F, &geo_types::Line<F>, &geo_types::Point<F>>>::distance': dist}
+            ip = Interp(mir, T, EXTRA, uf)
+            outs = ip.call_fn(fn, [Ref(lambda: ('g1',)), Ref(lambda: ('g2',))], z3.BoolVal(True))
+            npaths += len(outs)
+            tree = lambda g: ('tree', tuple(('line', g, i) for i in range(size[g] - 1)))
+            want_keys = [(tree('g1'), ('point', 'g2', i)) for i in range(n2)] + [(tree('g2'), ('point', 'g1', i)) for i in range(n1)]
+            if set(D) != set(want_keys):
+                bad.append(z3.BoolVal(True))      # a vertex was never looked up, or was looked up in the wrong tree
+                continue
+            mx = getattr(ip, 'max_value', None)
+            for v in D.values():
+                assume.append(v >= 0)
+                if mx is not None:
+                    assume.append(mx >= v)
+            want = zmin([D[k] for k in want_keys])
+            bad.append(z3.Not(z3.Or([pc for pc, _ in outs])))
+            for pc, r in outs:
+                bad.append(z3.And(pc, deref(r) != want))
+    st, info, model = check_unsat('ring_distance_covers_every_vertex', assume + [z3.Or(bad)])
+    return dict(theory='Real; coordinates and segments opaque tokens; rstar bulk_load / nearest_neighbor and the point-segment distance uninterpreted', functions=['euclidean::distance::nearest_neighbour_distance', 'its two fold closures'], paths=npaths, status=st, info=info, model=None, replay=('polygon_distance', ''))
+
+
+# ---- C08: which two points quick_hull takes as the extremes, and what it recurses on
+
+@obligation('C08', 'quick_hull_extreme_selection', 'quick_hull on 4-6 opaque points, for EVERY pair of indices (i, j) that least_and_greatest_index can return: the point removed as `min` is the one at index i and the one removed as `max` is the one at index j of the ORIGINAL order (whatever the swaps did), both partitions are taken over exactly the remaining points, hull_set is called as (max, min, .) then (min, max, .), and the hull receives max then min (least_and_greatest_index, partition_slice, hull_set uninterpreted; the slice surgery of swap_with_first_and_remove translated)')
+def o_qhull(mir, tier, seed):
+    from mir2smt import SliceView
+    fn = mir.find('geo', r'quick_hull')
+    bad, npaths = 0, 0
+    detail = []
+    for n in (4, 5, 6):
+        for i in range(n):
+            for j in range(n):
+                pts = [('p', k) for k in range(n)]
+                base = list(pts)
+                events = []
+
+                def part(ip, d, events=events):
+                    items = d[0].items()
+                    events.append(('partition', tuple(items)))
+                    return [SliceView(d[0].base, d[0].start, d[0].end), SliceView(d[0].base, d[0].end, d[0].end)]
+
+                def hs(ip, d, events=events):
+                    events.append(('hull_set', deref(d[0]), deref(d[1]), tuple(d[2].items())))
+                    return []
+                uf = {'re:(utils::)?least_and_greatest_index::<\\w+>': lambda ip, d, i=i, j=j: [i, j],
+                      're:(utils::)?partition_slice::<.*>': part, 're:hull_set::<\\w+>': hs,
+                      're:<Vec<geo_types::Coord<\\w+>> as Into<geo_types::LineString<\\w+>>>::into': lambda ip, d: [list(d[0])],
+                      're:geo_types::LineString::<\\w+>::close': lambda ip, d: []}
+                ip = Interp(mir, IntTheory(), EXTRA, uf)
+                outs = ip.call_fn(fn, [SliceView(base, 0, n)], z3.BoolVal(True))
+                npaths += len(outs)
+                ok = len(outs) == 1 and not (isinstance(outs[0][1], tuple) and outs[0][1][0] == 'halted')
+                if ok:
+                    hull = [deref(x) for x in deref(outs[0][1])[0]]
+                    rest = sorted(p for k, p in enumerate(pts) if k not in (i, j))
+                    if i != j:
+                        mn, mx = pts[i], pts[j]
+                        ok = hull == [mx, mn]
+                    else:
+                        # least == greatest only when all points are equal: any other point serves as max
+                        mn = pts[i]
+                        ok = len(hull) == 2 and hull[1] == mn and hull[0] in pts and hull[0] != mn
+                        mx = hull[0]
+                        rest = sorted(p for p in pts if p not in (mn, mx))
+                    ok = ok and len(events) == 4 and events[0] == ('partition', events[0][1]) and sorted(events[0][1]) == rest \
+                        and events[1][:3] == ('hull_set', mx, mn) and events[2][0] == 'partition' and sorted(events[2][1]) == rest \
+                        and events[3][:3] == ('hull_set', mn, mx)
+                if not ok:
+                    bad += 1
+                    detail.append((n, i, j))
+    st, info, model = check_unsat('quick_hull_extreme_selection', [z3.BoolVal(bad > 0)])
+    if detail:
+        info['failing_index_pairs (n, least, greatest)'] = detail[:6]
+    return dict(theory='structural (opaque points, every concrete index pair for n = 4, 5, 6; no symbolic branch)', functions=['convex_hull::qhull::quick_hull', 'convex_hull::swap_with_first_and_remove'], paths=npaths, status=st, info=info, model=None, replay=('quick_hull_extremes', ''))
+
+
+# ---- C01: two units of the relate graph - the mod-2 boundary rule at a node, the angular order of edge ends
+
+@obligation('C01', 'boundary_node_mod2_rule', 'GeometryGraph::insert_boundary_point, whatever the node\'s current label on this operand (none / Inside / OnBoundary / Outside): a point that was already a boundary point becomes Inside (an even number of line ends is not boundary), in every other case it becomes OnBoundary; the label is written for this operand\'s own index (node lookup and the Label accessors uninterpreted)')
+def o_mod2(mir, tier, seed):
+    fn = mir.find('geo', r'geometry_graph::<impl at [^>]*>::insert_boundary_point')
+    bad, npaths = 0, 0
+    for prev in (None, 'Inside', 'OnBoundary', 'Outside'):
+        for arg in (0, 1):
+            events = []
+
+            def position(ip, d, prev=prev, events=events):
+                events.append(('position', d[1], deref(d[2]).variant if isinstance(deref(d[2]), Enum) else d[2]))
+                return Enum('Some', [Enum(prev)]) if prev else Enum('None')
+
+            def set_on(ip, d, events=events):
+                events.append(('set_on_position', d[0], d[1], deref(d[2]).variant))
+                return []
+            uf = {'re:GeometryGraph::<.*>::add_node_with_coordinate': lambda ip, d: ('node', d[1]),
+                  're:CoordNode::<\\w+>::label_mut': lambda ip, d: ('label-of', d[0]),
+                  're:Label::position': position, 're:Label::set_on_position': set_on}
+            ip = Interp(mir, IntTheory(), EXTRA, uf)
+            graph = [arg, 'rest-of-graph']
+            outs = ip.call_fn(fn, [Ref(lambda graph=graph: graph), ('the-coord',)], z3.BoolVal(True))
+            npaths += len(outs)
+            want = 'Inside' if prev == 'OnBoundary' else 'OnBoundary'
+            lab = ('label-of', ('node', ('the-coord',)))
+            ok = len(outs) == 1 and events == [('position', arg, 'On'), ('set_on_position', lab, arg, want)]
+            if not ok:
+                bad += 1
+    st, info, model = check_unsat('boundary_node_mod2_rule', [z3.BoolVal(bad > 0)])
+    return dict(theory='structural (every previous label x both operand indices, concretely)', functions=['GeometryGraph::insert_boundary_point', 'GeometryGraph::determine_boundary'], paths=npaths, status=st, info=info, model=None, replay=('relate_units', ''))
+
+
+@obligation('C01', 'edge_end_order_is_quadrant_then_robust_orientation', 'EdgeEndKey::compare_direction for ANY two edge ends: Equal when the direction vectors are equal; otherwise decided by the quadrants when both are known and differ; otherwise EXACTLY the robust kernel\'s orient2d(other.p0, other.p1, self.p1): Clockwise -> Less, CounterClockwise -> Greater, Collinear -> Equal (no floating-point cross product of its own)')
+def o_edge_end(mir, tier, seed):
+    fn = mir.find('geo', r'edge_end::<impl at [^>]*>::compare_direction')
+    T = RealTheory()
+    bad, npaths = [], 0
+    for has1 in (True, False):
+        for has2 in (True, False):
+            q1, q2 = z3.Int('q1'), z3.Int('q2')
+            keys = []
+            for nm, has, q in (('s', has1, q1), ('o', has2, q2)):
+                keys.append([coord(T, nm + '0'), coord(T, nm + '1'), coord(T, nm + 'd'), Enum('Some', [q]) if has else Enum('None')])
+            calls = []
+            o_cw, o_ccw = z3.Bool('orient_cw'), z3.Bool('orient_ccw')
+
+            def orient(ip, d, pc, calls=calls):
+                calls.append((pc, [deref(x) for x in d]))
+                return ('fork', [(o_cw, Enum('Clockwise')), (z3.And(z3.Not(o_cw), o_ccw), Enum('CounterClockwise')), (z3.And(z3.Not(o_cw), z3.Not(o_ccw)), Enum('Collinear'))])
+            orient.wants_pc = True
+            ip = Interp(mir, T, EXTRA, {'re:<<F as GeoNum>::Ker as (algorithm::)?kernels::Kernel<F>>::orient2d': orient})
+            outs = ip.call_fn(fn, [Ref(lambda k=keys[0]: k), Ref(lambda k=keys[1]: k)], z3.BoolVal(True))
+            npaths += len(outs)
+            s_, o_ = keys
+            same = z3.And(s_[2][0] == o_[2][0], s_[2][1] == o_[2][1])
+            code = {'Less': -1, 'Equal': 0, 'Greater': 1}
+            by_orient = z3.If(o_cw, -1, z3.If(o_ccw, 1, 0))
+            if has1 and has2:
+                want = z3.If(same, 0, z3.If(q1 > q2, 1, z3.If(q1 < q2, -1, by_orient)))
+            else:
+                want = z3.If(same, 0, by_orient)
+            bad.append(z3.Not(z3.Or([pc for pc, _ in outs])))
+            for pc, r in outs:
+                r = deref(r)
+                if not (isinstance(r, Enum) and r.variant in code):
+                    bad.append(pc)
+                else:
+                    bad.append(z3.And(pc, want != code[r.variant]))
+            for pc, args in calls:
+                right = z3.And([a == b for x, y in zip(args, [o_[0], o_[1], s_[1]]) for a, b in zip(x, y)])
+                bad.append(z3.And(pc, z3.Not(right)))
+    st, info, model = check_unsat('edge_end_order_is_quadrant_then_robust_orientation', [z3.Or(bad)])
+    return dict(theory='Real + Int (quadrants as their declaration order); orient2d of the robust kernel uninterpreted (three-valued)', functions=['EdgeEndKey::compare_direction'], paths=npaths, status=st, info=info, model=None, replay=('relate_units', ''))
+
+
 # ---- C05 kernels
 
 @obligation('C05', 'line_determinant_int', 'for ALL integers: Line::determinant() = start.x*end.y - start.y*end.x (the shoelace term)')
@@ -1546,9 +1794,11 @@ def model_reals(model, vars_):
 
 
 def native(args):
-    exe = os.path.join(CACHE, 'native-target', 'debug', 'smtreplay')
-    env = dict(os.environ, CARGO_TARGET_DIR=os.path.join(CACHE, 'native-target'), CARGO_NET_OFFLINE='true', RUSTFLAGS='--cfg georust_geo_verif')
-    p = subprocess.run(['cargo', 'build', '--offline', '--bin', 'smtreplay'], cwd=os.path.join(VERIF, 'kani'), env=env, stdout=subprocess.PIPE, stderr=subprocess.STDOUT, text=True)
+    # VERIF_KANI_DIR / VERIF_NATIVE_TARGET: development overrides (a copy of the crate pointing at a scratch worktree)
+    tgt = os.environ.get('VERIF_NATIVE_TARGET', os.path.join(CACHE, 'native-target'))
+    exe = os.path.join(tgt, 'debug', 'smtreplay')
+    env = dict(os.environ, CARGO_TARGET_DIR=tgt, CARGO_NET_OFFLINE='true', RUSTFLAGS='--cfg georust_geo_verif')
+    p = subprocess.run(['cargo', 'build', '--offline', '--bin', 'smtreplay'], cwd=os.environ.get('VERIF_KANI_DIR', os.path.join(VERIF, 'kani')), env=env, stdout=subprocess.PIPE, stderr=subprocess.STDOUT, text=True)
     if p.returncode != 0:
         return None, 'native build failed: ' + p.stdout[-500:]
     p = subprocess.run([exe] + [str(a) for a in args], stdout=subprocess.PIPE, stderr=subprocess.STDOUT, text=True)
